@@ -41,19 +41,26 @@ def _close(a, b, scale=None):
 
 
 # ------------------------------------------------------------------ dimension-wise
+NODAL = ("trapezoidal", "highorder", "romberg")      # grid families whose result is sum_i w_i f(p_i)
+
+
 def _dw_fresh_sum(sa, op, config):
-    from sparseSpACE.Grid import GlobalTrapezoidalGrid
+    """every component grid evaluated independently on a FRESH grid object of the same family"""
     tot = np.zeros(op.f.output_length())
     mag = 0.0
+    a, b = np.array(sa.a, dtype=float), np.array(sa.b, dtype=float)
+    nodal = config.get("grid", "trapezoidal").startswith(NODAL)
     for c in sa.scheme:
         pc, pl, _ = sa.get_point_coord_for_each_dim(c.levelvector)
-        g = GlobalTrapezoidalGrid(np.array(sa.a, dtype=float), np.array(sa.b, dtype=float),
-                                  boundary=config.get("boundary", True), modified_basis=config.get("modified_basis", False))
+        g = dw.global_grid(config, a, b)
         g.set_grid(pc, pl)
-        pts, w = g.get_points_and_weights()
-        val = np.zeros(op.f.output_length())
-        for p, ww in zip(pts, w):
-            val += ww * np.asarray(op.f.eval(tuple(p)), dtype=float)
+        if nodal:
+            pts, w = g.get_points_and_weights()
+            val = np.zeros(op.f.output_length())
+            for p, ww in zip(pts, w):
+                val += ww * np.asarray(op.f.eval(tuple(p)), dtype=float)
+        else:
+            val = np.asarray(g.integrate(op.f, c.levelvector, a, b), dtype=float)
         tot += c.coefficient * val
         mag += abs(c.coefficient) * float(np.max(np.abs(val)))
     return tot, max(mag, 1.0)
@@ -63,6 +70,9 @@ def _dw_case(case):
     config, history = case["config"], case["history"]
     comps, n = FUNCS[config["func"]]
     key = {"strategy": "dimension-wise"}
+    if config.get("grid", "trapezoidal") != "trapezoidal":
+        key["grid"] = config["grid"]
+    nodal = config.get("grid", "trapezoidal").startswith(NODAL)
     store = {}
     steps = []
 
@@ -79,7 +89,7 @@ def _dw_case(case):
     res = np.array(r.result[3], dtype=float)
     fails = []
     for k, (val, pw, npts) in enumerate(steps):
-        if not _close(pw, val, max(1.0, float(np.max(np.abs(val))))):
+        if nodal and not _close(pw, val, max(1.0, float(np.max(np.abs(val))))):
             fails.append(fail("points_and_weights_reproduce_result", "evaluation %d of %d: sum w f(p) = %r, reported %r" % (k, len(steps), pw, val), key))
             break
     fails += _storage_failures(store, steps, key)
@@ -92,7 +102,7 @@ def _dw_case(case):
     pw = np.zeros(n)
     for p, ww in zip(pts, w):
         pw += ww * np.asarray(op.f.eval(tuple(p)), dtype=float)
-    if not _close(pw, res, mag):
+    if nodal and not _close(pw, res, mag):
         fails.append(fail("points_and_weights_reproduce_result", "sum w f(p) = %r, reported %r" % (pw, res), key))
     # same history, re-evaluation requested at the end
     r2 = dw.build(config, history, comps, n, perform_kwargs={"reevaluate_at_end": True})
@@ -359,13 +369,19 @@ def main(ctx):
                  "func": "vector"}, 1 if q else 2))
     dwc.append(({"strategy": "dw", "d": 2, "lmin": 1, "lmax": 2, "version": 6, "rebalancing": False, "boundary": False,
                  "modified_basis": True, "s": 1, "func": "vector"}, 2))
+    # other global grid families of the dimension-wise strategy (graded histories keep the deeper runs small)
+    for grid in ("highorder3", "highorder3s", "lagrange2", "bspline3", "romberg"):
+        # (the Romberg grid asserts dyadic step widths per level: it refuses the level labellings rebalancing produces)
+        dwc.append(({"strategy": "dw", "d": 2, "lmin": 1, "lmax": 2, "version": 6, "rebalancing": grid != "romberg", "boundary": True, "s": 1,
+                     "func": "vector", "grid": grid, "towards": [[0.3, 0.3], [0.3, 0.8]]}, 3 if q else 5))
     if not q:
         for version in (2, 3, 7, 8):
             dwc.append(({"strategy": "dw", "d": 2, "lmin": 1, "lmax": 2, "version": version, "rebalancing": True,
                          "boundary": True, "s": 1, "func": "vector"}, 3))
     for cfg, D in dwc:
-        tag = "dw_d%d_l%d%d_v%d_reb%d_bnd%d_mod%d_%s_D%d_s%d" % (cfg["d"], cfg["lmin"], cfg["lmax"], cfg["version"], cfg["rebalancing"],
-                                                                 cfg["boundary"], cfg.get("modified_basis", False), cfg["func"], D, cfg["s"])
+        tag = "dw_d%d_l%d%d_v%d_reb%d_bnd%d_mod%d_%s_D%d_s%d%s" % (cfg["d"], cfg["lmin"], cfg["lmax"], cfg["version"], cfg["rebalancing"],
+                                                                   cfg["boundary"], cfg.get("modified_basis", False), cfg["func"], D, cfg["s"],
+                                                                   "_" + cfg["grid"] if cfg.get("grid") else "")
         ctx.bounds[tag] = core.bfs(ctx, cfg, D, tag=tag)
     # 4) extend-split, default coarsening version 0
     esc = []
